@@ -18,6 +18,9 @@ X_NOTE = ("Trusted: Lean kernel + standard axioms; translators/translate.py; the
           "ManuallyDrop, mem::forget (modelled; validated by channel X on 40 (quick) / 300 (thorough) generated modules x 3 builds); rustc/LLVM; "
           "Rust's aliasing model beyond the write-permission rule. Replays are deterministic in VERIF_SEED (the replay file lists the module's requests).")
 
+P_NOTE = ("Trusted: Lean kernel + standard axioms; rustc's const-assertion evaluation, Copy obligations and structural auto-trait derivation are "
+          "MODELLED (three small rules) and validated by compile probes; generator model tied by the IR correspondence of channel L/G.")
+
 CLAIMS = {
  "C01": ("Kernel-checked theorem C01_disjoint over the Lean model of builder + all four native strategies: for every request "
          "history with every per-close strategy choice, all data of every variant are pairwise disjoint (induction: layout "
@@ -76,6 +79,15 @@ CLAIMS = {
          "inside a repr(align(A)) record are aligned, from C02), C07_in_bounds; the hook log of every primitive access of compiled code is checked "
          "for bounds and alignment at real addresses (stack/Box/Vec, CAP = MAX_SIZE and larger) and compared with the machine's access multiset.", "4 C07", X_NOTE,
          "Lean 4 theorems over translated primitives + access-log validation on compiled generated code"),
+ "C11": ("Theorems over the generator model + modelled compiler rules, for every definition: C11_size, C11_align, C11_copy (any datum of any "
+         "variant with wrong recorded size / alignment, or a may-be-uninit datum of a non-Copy type, makes `accepts` false), "
+         "C11_accepts_when_right, C11_assertions_emitted. Tie: generator IR correspondence (channel L/G) + 144 rustc compile probes (each lab "
+         "type x first/later variant x perturbation) compared with the static model's verdict.", "4 C11", P_NOTE,
+         "Lean 4 theorems (generator coverage lemmas) + rustc compile probes"),
+ "C14": ("Full statement is false of the code (known finding K1): C14_only_if_refuted proves the negation on a witness (record holding Rc), "
+         "replayed by compile probes; C14_if_partial (the 'whenever all of them can' direction) and C14_record_struct_shape proved. The check "
+         "prints KNOWN-FINDING for K1 and raises VIOLATION for any other C14 failure.", "4 C14", P_NOTE,
+         "Lean 4 theorems (partial + refutation witness) + rustc auto-trait probes; known finding"),
 }
 PENDING = "check not built yet (build phase in progress); planned per DESIGN.md section 4"
 
